@@ -1,4 +1,4 @@
-"""./check selftest <name>: seams | determinism | fidelity | sensitivity"""
+"""./check selftest <name>: seams | determinism | fidelity | conformance | sensitivity"""
 
 import sys
 
@@ -14,6 +14,9 @@ def run(argv):
     if name == 'fidelity':
         from . import fidelity
         return fidelity.run(argv[1:])
+    if name == 'conformance':
+        from . import conformance
+        return conformance.run(argv[1:])
     if name == 'sensitivity':
         from . import sensitivity
         return sensitivity.run(argv[1:])
